@@ -1,0 +1,13 @@
+//go:build verif
+
+package base
+
+// VerifMergedMetricKeys returns the keys of the internal map of metric key sets (the merged metric keys built by
+// SelectMetricKeySet), for the verification harness. Build tag "verif" only.
+func (pcounter *LogProcessCounterSet) VerifMergedMetricKeys() []string {
+	keys := make([]string, 0, len(pcounter.keySetPairs))
+	for key := range pcounter.keySetPairs {
+		keys = append(keys, key)
+	}
+	return keys
+}
